@@ -5,6 +5,14 @@ from driver import fmtgen as G
 ID = "C02"
 TIMEOUT = 5.0
 UNMODELLED = "unmodelled"
+
+
+def matches(c):
+    """model = implementation, or the oracle's explicit `unmodelled` marker (non-ASCII input, machine-dependent
+    allocation band): no correspondence obligation for that case"""
+    return c.model == UNMODELLED or c.model == c.impl
+
+
 LEVEL_TEXT = ("Lean theorems: parse(write a) = a (names, order, residues, length, detected alphabet) for every "
               "representable alignment, every wrap width w > 0, every number of rows and every length, by induction "
               "over rows and over chunks - complete for FASTA (roundtrip_fasta) and Stockholm (roundtrip_stockholm); executable writer + parser models of all five "
